@@ -3,7 +3,7 @@
    histories by the correspondence check); proofs: Adt/*Proofs.v. *)
 From Coq Require Import List Bool Arith ZArith.
 From GR Require Import Base.Result Adt.RefCache Adt.RefCacheProofs Adt.RetCache Adt.RetCacheProofs
-     Adt.OffsetMap Adt.IdSet Adt.SmallProofs.
+     Adt.OffsetMap Adt.IdSet Adt.SmallProofs Adt.BlockOrder Adt.BlockOrderProofs.
 Import ListNotations.
 
 (* ===== ReferenceCache: abs c s = (referent, at_end) that direct assignment would hold ===== *)
@@ -100,6 +100,41 @@ Theorem C20_idset : forall s x y,
   (In y (ids_discard x s) <-> In y s /\ y <> x) /\
   (NoDup s -> NoDup (ids_add x s) /\ NoDup (ids_discard x s)).
 Proof. exact idset_is_set. Qed.
+
+(* ===== BlockOrdering = a set of disjoint chains of blocks ===== *)
+(* Rep o chains: the linked nodes behind the dictionary link every block of a chain to its neighbours in that chain, and the
+   dictionary has no other key.  Every operation keeps the representation and does to the chains what its docstring says. *)
+Theorem C20_blockorder_empty : Rep [] [].
+Proof. exact empty_rep. Qed.
+Theorem C20_blockorder_adjacent_blocks :
+  forall o chains c l1 b l2, Rep o chains -> In c chains -> c = l1 ++ b :: l2 ->
+    BlockOrder.adjacent_blocks o b = Ok (lastp None l1, hd_error l2).
+Proof. exact adjacent_blocks_spec. Qed.
+Theorem C20_blockorder_adjacent_blocks_unknown :
+  forall o chains b, Rep o chains -> ~ In b (concat chains) -> BlockOrder.adjacent_blocks o b = Err KeyErr.
+Proof. exact adjacent_blocks_unknown. Qed.
+Theorem C20_blockorder_remove_block :
+  forall o chains b, Rep o chains -> In b (concat chains) ->
+    exists o', BlockOrder.remove_block o b = Ok o' /\ Rep o' (map (filt b) chains).
+Proof. exact remove_block_spec. Qed.
+Theorem C20_blockorder_insert_blocks_after :
+  forall o chains a xs, Rep o chains -> In a (concat chains) -> NoDup xs -> (forall x, In x xs -> ~ In x (concat chains)) ->
+    exists o', BlockOrder.insert_blocks_after o a xs = Ok o' /\ Rep o' (map (ins_after a xs) chains).
+Proof. exact insert_blocks_after_spec. Qed.
+Theorem C20_blockorder_add_detached_blocks :
+  forall o chains xs, Rep o chains -> NoDup xs -> (forall x, In x xs -> ~ In x (concat chains)) ->
+    exists o', BlockOrder.add_detached_blocks o xs = Ok o' /\ Rep o' (match xs with [] => chains | _ => xs :: chains end).
+Proof. exact add_detached_blocks_spec. Qed.
+Theorem C20_blockorder_errors :
+  (forall o chains after xs x, Rep o chains -> In x xs -> In x (concat chains) -> BlockOrder.primitive_insert o after xs = Err ValueErr) /\
+  (forall o chains a xs, Rep o chains -> ~ In a (concat chains) -> (forall x, In x xs -> ~ In x (concat chains)) ->
+     BlockOrder.insert_blocks_after o a xs = Err KeyErr).
+Proof. split; [exact insert_ordered_block_is_refused|exact insert_after_unknown_block]. Qed.
+Example C20_blockorder_example :
+  exists o1 o2 o3, BlockOrder.add_detached_blocks [] [1; 2; 3]%nat = Ok o1 /\ BlockOrder.insert_blocks_after o1 2%nat [7; 8]%nat = Ok o2 /\
+    BlockOrder.remove_block o2 3%nat = Ok o3 /\ BlockOrder.adjacent_blocks o3 8%nat = Ok (Some 7%nat, None) /\
+    map (filt 3) (map (ins_after 2 [7; 8]%nat) [[1; 2; 3]%nat]) = [[1; 2; 7; 8]%nat].
+Proof. eexists. eexists. eexists. repeat split; vm_compute; reflexivity. Qed.
 
 (* non-vacuity: a retarget cycle A->B, B->A and a lookup *)
 Example C20_example_cycle :
